@@ -170,6 +170,14 @@ class World(DuoWorld):
                 except Exception as e:  # noqa
                     self.run.log("onUserError-publish-raised", type(e).__name__)
             callee.onUserError = on_user_error
+        elif ch.flag("onUserError-hook-itself-fails", 0.15):
+            # an error hook with a bug of its own: the library guards the call - the endpoint's error goes out all the same
+            cfg["failing_onUserError"] = True
+
+            def broken_hook(fail, msg):
+                self.run.probe("onUserError-raises")
+                raise RuntimeError("bug in the application's error hook")
+            callee.onUserError = broken_hook
         self.callee = self.add_side("callee", callee, cfg["ser_callee"])
         self.caller = self.add_side("caller", caller, cfg["ser_caller"])
         self.join_all()
